@@ -3,6 +3,9 @@ package main
 import (
 	"fmt"
 	"os"
+	"runtime/debug"
+
+	"verif/harness/internal/ev"
 
 	_ "github.com/zmap/zlint/v3"
 )
@@ -40,5 +43,14 @@ func main() {
 		fmt.Fprintln(os.Stderr, "usage: drive <command> -out DIR [-tier T] [-seed N]")
 		os.Exit(2)
 	}
+	// A driver that dies (the tree under test handed it something it cannot work with) flushes what it has recorded and exits
+	// with status 3: the check still judges the recorded part, and reports the run as inconclusive if that shows nothing.
+	defer func() {
+		if p := recover(); p != nil {
+			ev.FlushAll()
+			fmt.Fprintf(os.Stderr, "DRIVER-PANIC %v\n%s\n", p, debug.Stack())
+			os.Exit(3)
+		}
+	}()
 	commands[os.Args[1]](os.Args[2:])
 }
